@@ -105,6 +105,25 @@ def gen_name_parts(rng: random.Random, pool: List[List[Any]], fresh: float = 0.3
         base = rng.choice(pool)
         parts = [p if not isinstance(p, str) else (
             p.upper() if rng.random() < 0.1 else p.capitalize() if rng.random() < 0.1 else p) for p in base]
+        if rng.random() < 0.12:
+            # a DIFFERENT name that reads the same: scaled number <-> the same digits as plain text
+            from recipe_grid.number_formatting import format_number
+            alt: List[Any] = []
+            changed = False
+            for p in parts:
+                if not isinstance(p, str) and not changed:
+                    alt.append(format_number(c.num_unjson(p)))
+                    changed = True
+                else:
+                    alt.append(p)
+            if not changed:
+                import re as _re
+                for i, p in enumerate(alt):
+                    m = _re.search(r"[0-9]+", p) if isinstance(p, str) else None
+                    if m:
+                        alt[i:i + 1] = [p[:m.start()], c.num_json(int(m.group(0))), p[m.end():]]
+                        break
+            parts = norm_parts(alt)
         return parts
     k = rng.random()
     if k < 0.6:
@@ -315,6 +334,40 @@ class ProgramGen:
             self.pool.append(n)
         return n
 
+    def convert_quantity(self, q: Any) -> Optional[Any]:
+        """The same physical amount written in another unit of the kind (exact factors only), random letter case."""
+        from recipe_grid.units import UNIT_SYSTEM
+        v, u, sp, prep = q["q"]
+        if u is None or q["explicit"]:
+            return None
+        try:
+            lu = " ".join(u.lower().split())
+            others = [(s_, n) for s_, n in UNIT_SYSTEM.iter_conversions_from(lu) if not isinstance(s_, float)]
+        except KeyError:
+            return None
+        if not others:
+            return None
+        scale, name = self.rng.choice(others)
+        aliases = [n for n in UNIT_SYSTEM.iter_names() if UNIT_SYSTEM._name_to_unit_set[n].normalise_unit_name(n) == name
+                   and n in UNIT_SYSTEM._name_to_unit_set[name]._name_to_node]
+        w = self.rng.choice(aliases or [name])
+        val = c.num_unjson(v)
+        if isinstance(val, float):
+            return None
+        nv = val * scale
+        if isinstance(nv, Fraction) and nv.denominator == 1:
+            nv = int(nv)
+        if isinstance(nv, int):
+            txt = str(nv)
+        else:
+            if nv.denominator > 10 ** 6 or nv.numerator > 10 ** 12:
+                return None
+            ip, rem = divmod(nv.numerator, nv.denominator)
+            txt = f"{ip} {rem}/{nv.denominator}" if ip and self.rng.random() < 0.5 else f"{nv.numerator}/{nv.denominator}"
+        w = w.upper() if self.rng.random() < 0.3 else w.capitalize() if self.rng.random() < 0.3 else w
+        return {"q": [c.num_json(nv), w, self.rng.choice(["", " "]), self.rng.choice(["", " of", " of the"])],
+                "explicit": False, "numtxt": txt}
+
     def expr(self, depth: int) -> Any:
         rng = self.rng
         if depth >= self.max_depth or rng.random() < 0.45:
@@ -326,7 +379,10 @@ class ProgramGen:
                 q = self.defined[self.key(nm)][1]
                 if q is not None:
                     amt = {"q": list(q["q"]), "explicit": q["explicit"], "numtxt": q["numtxt"]}
-            if not is_ref and rng.random() < self.error_rate / 2:
+                    conv = self.convert_quantity(q) if rng.random() < 0.5 else None
+                    if conv is not None:
+                        amt = conv
+            if not is_ref and rng.random() < self.error_rate / 8:
                 amt = gen_amount(rng, True, self.units)      # may be a proportion: the documented compile error
             return {"ref": nm, "amt": amt, "off": -1}
         n = rng.choice([1, 1, 2, 2, 3, 4])
